@@ -12,7 +12,7 @@ COLS = ["tag", "kind", "ns", "nskind", "concrete", "name", "declin", "flags", "r
 class Table:
     def __init__(self, text):
         self.rows, self.anc, self.ranc, self.mixins, self.undecl = [], {}, {}, [], []
-        for line in text.splitlines():
+        for line in text.split("\n"):     # NOT splitlines(): the parameter list uses \x1e / \x1f, which splitlines() treats as line ends
             p = line.split("\t")
             if p[0] == "ROW" and len(p) >= len(COLS):
                 r = dict(zip(COLS, p))
@@ -332,6 +332,8 @@ def param_choices(r, p, tab, tier_all):
                 vals.append((e, True, c))
             for e in ext:
                 if small_only and (e in HUGE_INTS or e in ("1e300", "1e100bf")):
+                    continue
+                if base in SMALL_ONLY_OPS and re.search(r"\d{5,}", e):   # exponent / shift count: `5i64 ** 9223372036854775807i64` never ends
                     continue
                 vals.append((e, False, c))
     if not vals:
@@ -844,26 +846,33 @@ def stream_calls(ctx, tab, elk, bad_rows, only_keys=None):
     # first crash of a (row, crash class) is re-run, further ones of the same class are taken as they are
     rerun_seen = set()
     BADK = ("panic", "fatal", "timeout", "lost")
+    todo = []
     for c in chosen:
         k, d = res.get(c["id"], ("lost", ""))
         pk, pd = pres.get(c["id"], ("", ""))
         if k in BADK or pk in BADK:
             sig = (c["row"]["key"], k, panic_class(d), pk, panic_class(pd))
-            if sig in rerun_seen:
-                continue
-            rerun_seen.add(sig)
-            for attempt in range(2):
-                r2, p2 = run_chunks(elk, [[c]], workdir, "re%s_%d_" % (c["id"], attempt))
-                k2, d2 = r2.get(c["id"], ("lost", ""))
-                pk2, pd2 = p2.get(c["id"], ("", ""))
-                if k2 not in BADK and pk2 not in BADK:
-                    res[c["id"]] = (k2, d2)
-                    if c["id"] in p2:
-                        pres[c["id"]] = p2[c["id"]]
-                    else:
-                        pres.pop(c["id"], None)
-                    c["flaky"] = (k, d)
-                    break
+            if sig not in rerun_seen:
+                rerun_seen.add(sig)
+                todo.append((c, k, d))
+    for attempt in range(2):
+        if not todo:
+            break
+        r2, p2 = run_chunks(elk, [[c] for (c, k, d) in todo], workdir, "re%d_" % attempt)
+        still = []
+        for (c, k, d) in todo:
+            k2, d2 = r2.get(c["id"], ("lost", ""))
+            pk2, pd2 = p2.get(c["id"], ("", ""))
+            if k2 not in BADK and pk2 not in BADK:
+                res[c["id"]] = (k2, d2)
+                if c["id"] in p2:
+                    pres[c["id"]] = p2[c["id"]]
+                else:
+                    pres.pop(c["id"], None)
+                c["flaky"] = (k, d)
+            else:
+                still.append((c, k, d))
+        todo = still
     cres = run_chunks(elk, [[c] for c in conf_list], workdir, "k")[0] if conf_list else {}
     dist, distinct, nfail, samples = {}, set(), 0, []
     throw_report = {}
